@@ -172,9 +172,14 @@ def markdown_escape_word(word: str) -> str:
 _md_def_label_pat = re.compile(r"\s*\[(?!\^)(?:[^\[\]\\]|\\.)+\]:")
 
 
-def markdown_starts_like_definition(text: str) -> bool:
-    """A paragraph that begins like a link reference definition (`[label]: and more text`)."""
-    return bool(_md_def_label_pat.match(text))
+def markdown_starts_like_definition(text: str, only_label: bool = False) -> bool:
+    """
+    A paragraph that begins like a link reference definition (`[label]: and more text`);
+    with `only_label`, one that is nothing but `[label]:` (whatever line comes next, even in
+    the next list item, may complete it for a lenient parser).
+    """
+    label = _md_def_label_pat.match(text)
+    return bool(label) and (not only_label or not text[label.end() :].strip())
 
 
 def markdown_first_line_is_rule(lines: list[str]) -> bool:
@@ -200,8 +205,10 @@ def markdown_escape_first_word(text: str, paragraph_start: bool = True) -> str:
     wraps the result again, so that the escaped word is laid out with its real width.
     Also used for the first word after a hard line break (`paragraph_start=False`).
     """
-    if paragraph_start and _md_def_label_pat.match(text):
-        return text.replace("[", "\\[", 1)
+    label = _md_def_label_pat.match(text) if paragraph_start else None
+    if label:
+        # The colon is escaped, not the bracket: `[label]` may be a reference link.
+        return text[: label.end() - 1] + "\\:" + text[label.end() :]
     match = re.match(r"\s*(\S+)", text)
     if not match:
         return text
